@@ -297,7 +297,11 @@ fn mutations(r: &mut Rng, name: &str) -> Vec<(String, &'static str)> {
 /// Tokens that code sometimes special-cases (package file suffixes, backup
 /// suffixes, path prefixes, a byte order mark): appended / prepended to
 /// patterns and names so that such a special case cannot hide.
-const DICT: [&str; 14] = [".tgz", ".tbz", ".txz", ".tzst", ".tar.gz", ".orig", ".rej", "~", "./", "\u{feff}", ".pkg", "/", "nb1", "-1.0"];
+const DICT: [&str; 20] = [
+    ".tgz", ".tbz", ".txz", ".tzst", ".tar.gz", ".orig", ".rej", "~", "./", "\u{feff}", ".pkg", "/", "nb1", "-1.0",
+    // what the dewey matcher treats as "nothing" is something to a plain or glob pattern
+    "nb0", ".0", "pl", "_", "nb", "NB0",
+];
 
 fn simple_char(c: char) -> bool {
     c.is_ascii_alphanumeric() || c == '-'
@@ -466,6 +470,9 @@ pub fn run(cx: &mut Cx) {
             }
             names.push((nm, "lang"));
         }
+        // the pattern's own text as a name: matches a plain pattern, and a glob
+        // only if the text happens to be in its own language
+        names.push((p.clone(), "pattern-text"));
         cx.check(
             || format!("pattern {p:?} x {} names, e.g. {:?}", names.len(), names.iter().rev().take(4).map(|n| &n.0).collect::<Vec<_>>()),
             |ev| check_glob_or_plain(ev, &p, &names),
